@@ -95,7 +95,7 @@ func setOuts(tg *RTarget) {
 	}
 }
 
-func drawSrcs(t *rapid.T, r *Repo, pkg string, upto int, min int) []RSrc {
+func drawRepoSrcs(t *rapid.T, r *Repo, pkg string, upto int, min int) []RSrc {
 	var cands []RSrc
 	for _, f := range r.FilesOf(pkg) {
 		cands = append(cands, RSrc{File: f.Path})
@@ -130,12 +130,12 @@ func addTarget(t *rapid.T, r *Repo, o RepoGenOpts, name string) *RTarget {
 		tg.Content = rapid.SampledFrom(RepoContents).Draw(t, "content")
 	case k <= 2:
 		tg.Kind = "filegroup"
-		tg.Srcs = drawSrcs(t, r, pkg, len(r.Targets), 1)
+		tg.Srcs = drawRepoSrcs(t, r, pkg, len(r.Targets), 1)
 		fixFilegroup(r, tg)
 	default:
 		tg.Kind = "genrule"
 		tg.Cmd = rapid.SampledFrom(o.Kinds).Draw(t, "cmd")
-		tg.Srcs = drawSrcs(t, r, pkg, len(r.Targets), 1)
+		tg.Srcs = drawRepoSrcs(t, r, pkg, len(r.Targets), 1)
 		if !o.NoGlob && rapid.IntRange(0, 5).Draw(t, "glob") == 0 {
 			tg.Glob = rapid.SampledFrom([]string{"*.txt", "a*.txt", "[bc].txt"}).Draw(t, "globpat")
 		}
@@ -356,7 +356,7 @@ func GenEdit(t *rapid.T, old *Repo, o RepoGenOpts) (*Repo, string) {
 			if tg.Kind == "text_file" {
 				continue
 			}
-			extra := drawSrcs(t, r, tg.Pkg, i, 1)
+			extra := drawRepoSrcs(t, r, tg.Pkg, i, 1)
 			for _, s := range extra {
 				dup := false
 				for _, e := range tg.Srcs {
